@@ -37,6 +37,8 @@ func (p *c15) Init(tier string, seed int64) {
 		// beyond 2^24: integers that a float32 still holds exactly (few significant bits)
 		// beyond 2^53: integers no float64 holds
 		1<<53 + 1, -(1<<53 + 1), 1<<62 + 1, math.MaxInt64, math.MinInt64, math.MaxInt64 - 1,
+		// ... and integers beyond 2^53 that a float64 (some also a float32) does hold
+		1 << 54, 1<<53 + 2, 1 << 60, -(1 << 60), 1<<62 + 1<<20, 1e18, 1<<60 + 1<<40, 3 << 55, -(5 << 50), 1<<62 - 1<<9,
 		1 << 25, 1 << 27, 5 << 26, 1 << 31, -(1 << 31), 3 << 30, 1 << 40, 1 << 52, 12345678 << 8, (1<<24 - 1) << 20, 33554434, -(1 << 27)}
 	p.nZoo, p.nInts = len(p.zoo), len(p.ints)
 	p.nI16 = 65536 / 512
@@ -94,10 +96,13 @@ func carriers(n int64) []gen.Named {
 		add("uint64", uint64(n))
 		add("uint", uint(n))
 	}
-	if n >= -(1<<53) && n <= 1<<53 && float64(float32(n)) == float64(n) {
+	// a float carries n if converting there and back gives n again (2^60 is as good an integer as 2^20); the
+	// conversion back is only defined below 2^63
+	exact64 := n > math.MinInt64 && n < math.MaxInt64-512 && int64(float64(n)) == n
+	if exact64 && float64(float32(n)) == float64(n) {
 		add("float32", float32(n)) // every integer up to 2^24, and beyond that the ones a float32 holds exactly
 	}
-	if n >= -(1<<53) && n <= 1<<53 {
+	if exact64 {
 		add("float64", float64(n))
 		add("defined type on float64", gen.NamedF64(n))
 	}
